@@ -104,6 +104,25 @@ def run(rep, pdb, tier):
     rep.add("zero-divisor/only", "before the loop polydiv refuses only a zero divisor (empty or all-zero): no other test turns a valid division into Err "
             "(an `invertible leading coefficient` round-trip test fails for ordinary floats such as 49)", not extra, extra[0].node if extra else fn["body"],
             "Err guards before the loop: %d, with another reason: %d" % (len(errs_all), len(extra)))
+    # ---- an early success before the loop claims "nothing to eliminate": q = 0, r = u is the answer only when deg u < deg v (or u = 0)
+    wl0 = [n for n in walk(fn["body"]) if n.get("k") in ("While", "For", "Loop")]
+    early, bad_e = [], []
+    for r_ in walk(fn["body"]):
+        if r_.get("k") != "Ret" or r_.get("e") is None or any(a.get("k") in ("While", "For", "Loop", "Closure") for a in ancestors(r_)):
+            continue
+        t_ = ctx.term(r_["e"])
+        if not (t_[0] == "call" and str(t_[1]).endswith("::Ok")) or (wl0 and _pos(r_) > _pos(wl0[0])):
+            continue
+        early.append(r_)
+        fs_ = facts(ctx, r_)
+        lt = norm_cmp("<", LEN(CO0), LEN(CO1))
+        okf = any(f_ == lt or f_ == norm_cmp("<=", LEN(CO0), lin_add(LEN(CO1), num(-1))) or
+                  (f_[0] == "bool" and f_[1][0] == "call" and str(f_[1][1]).endswith("::is_zero") and f_[1][2] == P(0) and f_[2] is True) for f_ in fs_)
+        if not okf:
+            bad_e.append(r_)
+    rep.add("early-ok", "an `Ok` returned before the elimination loop is guarded by deg u < deg v (len u < len v) or u = 0: with deg u = deg v there is a quotient term "
+            "lead(u)/lead(v) to produce, and returning (0, u) leaves deg r = deg v", not bad_e, bad_e[0] if bad_e else fn["body"],
+            "Ok returns before the loop: %d, not implied by deg u < deg v: %d" % (len(early), len(bad_e)))
     # ---- no spin
     wl = [n for n in walk(fn["body"]) if n.get("k") in ("While", "For", "Loop")]
     bounded_for = False
